@@ -16,7 +16,7 @@ def feature_files(feat, sub, pkg) -> dict:
     if "__init__.py" not in files:
         out[f"{sub}/__init__.py"] = ""
     for rel, text in files.items():
-        out[f"{sub}/{rel}"] = text.replace("{pkg}", pkg).replace("{sub}", sub)
+        out[f"{sub}/{rel.replace('{sub}', sub)}"] = text.replace("{pkg}", pkg).replace("{sub}", sub)
     return out
 
 
